@@ -26,11 +26,18 @@ REPRS = {
     "fd": ({"compression_rank": 2, "frequent_directions": True,
             "reuse_preconditioner": True}, "rep"),
     "quant": ({"best_effort_memory_usage_reduction": True}, "pmap"),
+    # every root rejected: the low-rank preconditioner keeps its all-zero
+    # initial value, the preconditioned gradient is exactly zero
+    "comp+2/thr0": ({"compression_rank": 2,
+                     "inverse_failure_threshold": 0.0}, "rep"),
 }
 SKIPS = {
     "none": {},
     "rank_lt2": {"skip_preconditioning_rank_lt": 2},
     "dim_gt6": {"skip_preconditioning_dim_size_gt": 6},
+    # with merging on: the exclusion rules look at the parameter's own shape
+    "rank_lt2_merged": {"skip_preconditioning_rank_lt": 2,
+                        "best_effort_shape_interpretation": True},
 }
 
 
@@ -102,7 +109,8 @@ def run_ds(task, acc):
   cfg = dict(rcfg, graft_type=task["graft"], beta1=0.0, beta2=0.5,
              nesterov=False, learning_rate=1.0, block_size=8,
              start_preconditioning_step=task["start"],
-             best_effort_shape_interpretation=False, **SKIPS[task["skip"]])
+             best_effort_shape_interpretation=False)
+  cfg.update(SKIPS[task["skip"]])
   runner = ds.Runner(cfg, SHAPES, mode)
   alpha = ds.grad_trees(SHAPES, EVENTS, (0, 8), task["seed"])
   full = dict(ref.BASE, **cfg)
@@ -164,6 +172,14 @@ def run_ds(task, acc):
           if np.any(g != 0):
             acc.nontrivial += 1
           ls = runner.leaf_stats(s2, n)
+          if len(ls["preconditioners"]) != len(lf.stats):
+            acc.outcome("viol_exclusion_rule")
+            acc.violation(sig + "|excluded", "leaf %s of shape %s holds %d "
+                          "preconditioners, the documented exclusion rules "
+                          "(on the parameter's own shape) give %d" %
+                          (n, SHAPES[n], len(ls["preconditioners"]),
+                           len(lf.stats)), case)
+            continue
           precs = [dense(p) for p in ls["preconditioners"]]
           pg = lf.precondition(g, precs)
           pn = np.linalg.norm(pg)
